@@ -19,7 +19,7 @@ TRUSTED_BASE = [
 ]
 
 # hook commits in /repo (guarded by cargo feature 'verif')
-HOOK_COMMITS = ["0b8985f", "1141b44", "fd41ccb", "3a8a973", "0f4e986", "94a03e4", "51650e6", "c177853", "4219d4e"]
+HOOK_COMMITS = ["0b8985f", "1141b44", "fd41ccb", "3a8a973", "0f4e986", "94a03e4", "51650e6", "c177853", "4219d4e", "8a92a16"]
 # reasons for properties without a check
 NOT_CLAIMED = {}
 
